@@ -153,7 +153,7 @@ func (fsm *stateMachine) onApply(t fsmApply) {
 
 func (fsm *stateMachine) onSnapReq(t fsmSnapReq) {
 	verifPointFSM(fsm, "fsm.beforeSnap")
-	if fsm.index == fsm.snaps.index {
+	if snapIndex, _ := fsm.snaps.latest(); fsm.index == snapIndex {
 		t.reply(ErrNoUpdates)
 		return
 	}
